@@ -5,6 +5,7 @@
 -/
 import ApiFu.C06.Lemmas
 import ApiFu.C06.Fuel
+import ApiFu.C06.Complete
 
 namespace ApiFu.C06
 
@@ -269,5 +270,93 @@ theorem parse_fuel_sufficient (maxRec : Nat) (inp : Input) (leak : Bool) :
     | ok a st' => simp [Res.outcome]
     | fail es => simp [Res.outcome]
     | oof => rw [hr] at h; exact h.elim
+
+
+theorem clean_of_scannerErrs {inp : Input} (h : scannerErrs inp = []) (maxRec : Nat) (leak : Bool) :
+    Clean (inp.env maxRec leak) inp.toks := by
+  unfold scannerErrs at h
+  have h1 := (List.append_eq_nil_iff.mp h).1
+  have h2 := (List.append_eq_nil_iff.mp h).2
+  refine ⟨?_, h2⟩
+  intro t ht
+  have := List.flatMap_eq_nil_iff.mp h1 t ht
+  exact this
+
+theorem init_errors_clean {inp : Input} (h : scannerErrs inp = []) : inp.init.errors = [] := by
+  have hc := clean_of_scannerErrs h 0 false
+  unfold Input.init
+  cases hts : inp.toks with
+  | nil => exact hc.2
+  | cons t ts => exact hc.1 t (by simp [hts])
+
+/-- The outcome of `ParseDocument` on a rendering of a well-formed tree: the tree itself, or the depth
+    error, decided by the production depth alone. -/
+theorem parse_rendering (maxRec : Nat) (inp : Input) (d : Document)
+    (hclean : scannerErrs inp = []) (hr : Renders inp.toks d.stoks = true) (hwf : wfDocument d = true) :
+    (pdDocument d ≤ maxRec ∧ ParseDocument maxRec inp = .returned d []) ∨
+    (maxRec < pdDocument d ∧ ∃ p, ParseDocument maxRec inp = .recovered [{ msg := depthMsg, pos := p }]) := by
+  have hp : Pre (inp.env maxRec false) inp.init inp.toks [] :=
+    ⟨by simp [Input.init], by simpa using clean_of_scannerErrs hclean maxRec false, rfl⟩
+  have hc := parseDocument_cmpl d (defaultFuel inp) (inp.env maxRec false) inp.init inp.toks hp hr hwf
+  have hnf := (parse_fuel_sufficient maxRec inp false).1
+  have he := init_errors_clean hclean
+  unfold Cmpl wp at hc
+  unfold ParseDocument at hnf ⊢
+  cases hres : parseDocument (defaultFuel inp) (inp.env maxRec false) inp.init with
+  | ok a st' =>
+    rw [hres] at hc
+    obtain ⟨rfl, rfl, hd⟩ := hc
+    left
+    refine ⟨by simpa [Input.init, Input.env] using hd, ?_⟩
+    simp [Res.outcome, he]
+  | fail es =>
+    rw [hres] at hc
+    obtain ⟨hd, p, rfl⟩ := hc
+    right
+    refine ⟨by simpa [Input.init, Input.env] using hd, p, ?_⟩
+    simp [Res.outcome, he]
+  | oof => rw [hres] at hnf; exact absurd rfl hnf
+
+/-- **parse_print** — every document of the grammar parses back to itself: if the token list is a
+    rendering of a well-formed tree `d` (same kinds and values, every recorded position the position of
+    its token), the scanner reported nothing, and the production depth of `d` is within the limit, then
+    `ParseDocument` returns exactly `d` — every node, every recorded position — and no error. Whole
+    documents, every production. -/
+theorem parse_print (maxRec : Nat) (inp : Input) (d : Document)
+    (hclean : scannerErrs inp = []) (hr : Renders inp.toks d.stoks = true) (hwf : wfDocument d = true)
+    (hdepth : pdDocument d ≤ maxRec) : ParseDocument maxRec inp = .returned d [] := by
+  rcases parse_rendering maxRec inp d hclean hr hwf with ⟨_, h⟩ | ⟨h, _⟩
+  · exact h
+  · omega
+
+/-- **parse_unambiguous** — a token list renders at most one well-formed tree (the grammar is
+    unambiguous, and the recorded positions are determined by the tokens). -/
+theorem parse_unambiguous (ts : List Tok) (d1 d2 : Document) (hclean : ∀ t ∈ ts, t.errs = [])
+    (h1 : Renders ts d1.stoks = true) (h2 : Renders ts d2.stoks = true)
+    (w1 : wfDocument d1 = true) (w2 : wfDocument d2 = true) : d1 = d2 := by
+  let inp : Input := { toks := ts, eofPos := ⟨0, 0⟩ }
+  have hc : scannerErrs inp = [] := by
+    simp only [scannerErrs, inp, List.append_nil]
+    exact List.flatMap_eq_nil_iff.mpr hclean
+  have e1 := parse_print (max (pdDocument d1) (pdDocument d2)) inp d1 hc h1 w1 (Nat.le_max_left _ _)
+  have e2 := parse_print (max (pdDocument d1) (pdDocument d2)) inp d2 hc h2 w2 (Nat.le_max_right _ _)
+  rw [e1] at e2
+  simpa using e2
+
+/-- **accepts_exactly** — `ParseDocument` accepts (returns a document and no error) exactly the token
+    lists of the executable-document grammar whose production depth is within the limit: the returned
+    document is the unique well-formed tree the tokens render. -/
+theorem accepts_exactly (maxRec : Nat) (inp : Input) (d : Document) :
+    ParseDocument maxRec inp = .returned d [] ↔
+      (scannerErrs inp = [] ∧ wfDocument d = true ∧ Renders inp.toks d.stoks = true ∧ pdDocument d ≤ maxRec) := by
+  constructor
+  · intro h
+    obtain ⟨hwf, hr, he⟩ := parse_sound maxRec inp d [] h
+    refine ⟨he.symm, hwf, hr, ?_⟩
+    rcases parse_rendering maxRec inp d he.symm hr hwf with ⟨hd, _⟩ | ⟨_, p, hp⟩
+    · exact hd
+    · rw [h] at hp; simp at hp
+  · intro ⟨hc, hwf, hr, hd⟩
+    exact parse_print maxRec inp d hc hr hwf hd
 
 end ApiFu.C06
